@@ -195,10 +195,10 @@ func c36(r *core.Run) {
 		r.Check("C36.G3", core.Key("C36.G3", mkey, "generate only when absent"), c.Pos(), len(absent) > 0 && core.OnlyBehind(mkey, c, absent),
 			"the in-memory keystore creates a key only when the name is unknown", "a key is generated although one is stored under the name")
 	}
-	pwEq, _ := core.AtomEdges(mkey, cmpAtom(func(v ssa.Value) bool {
+	pwEq, _ := core.AtomEdges(mkey, secretEqAtom(func(v ssa.Value) bool {
 		fr, ok := core.AsField(v)
 		return ok && fr.Name == "password"
-	}, func(y ssa.Value) bool { return y == ssa.Value(mkey.Params[2]) }, "=="))
+	}, func(y ssa.Value) bool { return y == ssa.Value(mkey.Params[2]) }))
 	nStored := 0
 	core.EachInstr(mkey, func(_ *ssa.BasicBlock, _ int, in ssa.Instruction) {
 		ret, ok := in.(*ssa.Return)
